@@ -248,6 +248,22 @@ def loadState (env : Env σ) (group : Bytes) (fallback : Fallback)
     let fo ← go2 (subs.flatMap fun (t, ps) => ps.map fun p => (t, p)) []
     pure (consumed, fo)
 
+/-- the subscriptions of an assignment list against the loaded metadata -/
+def resolveSubs (st : ClientState) : List (Bytes × List Int) → Except Err (List (Bytes × List Int))
+  | [] => .ok []
+  | (t, req) :: r => do
+    let ps ← determinePartitions st t req
+    let rest ← resolveSubs st r
+    pure ((t, ps) :: rest)
+
+/-- the part of `Builder::create` that talks to the cluster: metadata (unless a client was handed in), subscriptions, state -/
+def createState (env : Env σ) (group : Bytes) (fallback : Fallback) (needMd : Bool) (as : List (Bytes × List Int)) :
+    CM σ (List (TP × Consumed) × List (TP × FetchState)) := do
+  (if needMd then loadMetadataAll env else pure ())
+  let c ← getClient
+  let ss ← M.ofExcept (resolveSubs c.st as)
+  loadState env group fallback as ss
+
 /-- `Builder::create` (consumer/builder.rs:237-279) -/
 def ConsumerBuilder.create (env : Env σ) (b : ConsumerBuilder) : M σ Consumer := fun world =>
   let amap := assignMap b.assignOps
@@ -260,17 +276,7 @@ def ConsumerBuilder.create (env : Env σ) (b : ConsumerBuilder) : M σ Consumer 
   | .ok cfg =>
     let client : Client := { client0 with cfg := cfg }
     let as := assignmentsFromMap amap
-    let m : CM σ (List (TP × Consumed) × List (TP × FetchState)) := do
-      if needMd then loadMetadataAll env
-      let c ← getClient
-      let rec subs : List (Bytes × List Int) → Except Err (List (Bytes × List Int))
-        | [] => .ok []
-        | (t, req) :: r => do
-          let ps ← determinePartitions c.st t req
-          let rest ← subs r
-          pure ((t, ps) :: rest)
-      let ss ← M.ofExcept (subs as)
-      loadState env b.group b.fallback as ss
+    let m : CM σ (List (TP × Consumed) × List (TP × FetchState)) := createState env b.group b.fallback needMd as
     match m ⟨world, client⟩ with
     | (w, .ok (consumed, fo)) =>
       (w.world, .ok { client := w.client, group := b.group, fallback := b.fallback, retryLimit := b.retryLimit,
